@@ -249,6 +249,7 @@ fn faults_with_kind(cex: &Value) -> Result<String, String> {
     if let Some(line) = purge_dangling(&did) {
       out.push(line);
     }
+    out.extend(purge_non_jwk(&did));
     for with_refs in [false, true] {
       for scope in [MethodScope::VerificationMethod, MethodScope::authentication()] {
         for psched in &schedules {
@@ -281,6 +282,34 @@ fn faults_with_kind(cex: &Value) -> Result<String, String> {
 
 /// one purge under `sched` (occurrence numbers count from the purge call) in a freshly built world
 /// purge of an id that exists only as a reference (its method lives elsewhere): MethodNotFound, document unchanged
+/// purge of a method that holds no JWK (nothing is stored for it): an error, and the document stays as it was - in every
+/// scope, with and without references to it
+fn purge_non_jwk(did: &CoreDID) -> Vec<String> {
+  use identity_core::convert::FromJson;
+  let mut out = Vec::new();
+  let m = format!(r#"{{"id":"{did}#mb","controller":"{did}","type":"Ed25519VerificationKey2018","publicKeyMultibase":"zH3C2AVvLMv6gmMNam3uVAjZpfkcJCwDwnZn6z3wXmqPV"}}"#);
+  for text in [
+    format!(r#"{{"id":"{did}","verificationMethod":[{m}]}}"#),
+    format!(r#"{{"id":"{did}","verificationMethod":[{m}],"authentication":["{did}#mb"],"keyAgreement":["{did}#mb"]}}"#),
+    format!(r#"{{"id":"{did}","assertionMethod":[{m}]}}"#),
+  ] {
+    let Ok(mut doc) = CoreDocument::from_json(&text) else {
+      out.push("[purge-non-jwk] fixture rejected".to_owned());
+      continue;
+    };
+    let st = Storage::new(JwkMemStore::new(), KeyIdMemstore::new());
+    let before = snapshot(&doc);
+    let id = did.to_url().join("#mb").unwrap();
+    match block_on(doc.purge_method(&st, &id)) {
+      Ok(()) => out.push("[purge-non-jwk] purge of a method without stored key material reported success".to_owned()),
+      Err(JwkStorageDocumentError::UndoOperationFailed { .. }) => {}
+      Err(e) if snapshot(&doc) != before => out.push(format!("[purge-non-jwk] error returned ({e}) but the method is gone from the document")),
+      Err(_) => {}
+    }
+  }
+  out
+}
+
 fn purge_dangling(did: &CoreDID) -> Option<String> {
   use identity_core::convert::FromJson;
   let text = format!(
